@@ -896,7 +896,9 @@ func (f *FeaturesByID) FindRelationsByFeature(id b6.FeatureID) b6.RelationFeatur
 			case b6.FeatureTypeRelation:
 				relations = f.fillRelationsFromRelation(fb, id.Value, relations)
 			}
-			break
+			// Don't stop at the first block for the namespace: when several
+			// index files are merged, the feature may be in a later block, and
+			// a point has an entry in each file that references it.
 		}
 	}
 	// A relation that lists a feature more than once is stored once per
